@@ -663,8 +663,9 @@ def run(tier):
     except Exception as e:      # TranslateError or a syntax error in the source
         tr_err = f'{type(e).__name__}: {e}'
     if G is None:
-        try:    # tables of the pinned tree, only to drive the generators while searching for a failing input
-            G = c18_quote.translate('/repo')[0]
+        try:    # tables of the pinned tree: keep the model consistent while searching for a failing input
+            G = c18_quote.run('/repo', GEN_DIR) if os.path.realpath(lib.REPO) != '/repo' \
+                else c18_quote.translate('/repo')[0]
         except Exception:
             G = {}
     TABLES['G'] = G
@@ -711,6 +712,7 @@ def run(tier):
         if fl != '-':
             mon += [(i, f) for f in fl.split(',')]
     out_mism, lex_mism, pg_fail, n_lex_cmp, n_unm, n_none = [], [], [], 0, 0, 0
+    pg_seen = {}
     if model is not None:
         for i, (c, a, b) in enumerate(zip(cases, impl, model)):
             io, il, _ = a.split('\t')
@@ -728,20 +730,26 @@ def run(tier):
                     n_lex_cmp += 1
                     if il != ml:
                         lex_mism.append(i)
-            if fn in 'libq' and not pg_ok(c, mp):
-                pg_fail.append(i)
-        # quote_type: not modelled; its real output must read as a dotted name under the PG spec
-        tq = [(i, c) for i, c in enumerate(cases) if c[0] == 't' and not impl[i].startswith('X:')]
-        tq_lines = [enc(('Y', bytes.fromhex(impl[i].split('\t')[0]).decode() + c[2], '', 0)) for i, c in tq]
-        tq_res = run_model(exe, tbl, tq_lines) if tq_lines else []
-        for (i, c), r in zip(tq, tq_res):
-            parts = c[1].split('\x1f')
-            plain = all(p and p.isascii() and p.replace('_', 'a').isalnum() and not p[0].isdigit()
-                        and len(p) < 64 for p in parts)
-            if plain and not r.split('\t')[2].startswith('ok:Q:'):
+        # PostgreSQL side: the lexical spec (extracted pg_lex1 / pg_bytea_in / pg_lex_qname) is applied to
+        # the REAL output of every SQL quoting function, independently of the model of that function
+        pgi = [(i, c) for i, c in enumerate(cases) if c[0] in 'libqt' and impl[i].split('\t')[0] not in ('-',)
+               and not impl[i].startswith('X:')]
+        mode = {'l': 0, 'i': 0, 'b': 1, 'q': 2, 't': 2}
+        pg_lines = [enc(('y', bytes.fromhex(impl[i].split('\t')[0]).decode(), c[2], mode[c[0]])) for i, c in pgi]
+        pg_res = run_model(exe, tbl, pg_lines) if pg_lines else []
+        for (i, c), r in zip(pgi, pg_res):
+            third = r.split('\t')[2]
+            pg_seen[i] = third
+            if c[0] == 't':
+                # quote_type is not modelled: plain dotted names must read back as a dotted name
+                parts = c[1].split('\x1f')
+                plain = all(p and p.isascii() and p.replace('_', 'a').isalnum() and not p[0].isdigit()
+                            and len(p) < 64 for p in parts)
+                if plain and pg_boundary_ok(c[2]) and not c[2].startswith('.') and not third.startswith('ok:Q:'):
+                    pg_fail.append(i)
+            elif not pg_ok(c, third):
                 pg_fail.append(i)
 
-    mark('compare')
     # ---- 5. a sample evaluated inside Coq (guards the extraction step); ASCII-only cases so that
     #         the Unicode tables are not consulted
     coq_diff, n_coq = [], 0
@@ -806,14 +814,15 @@ def run(tier):
                        'required': 'one token of the expected kind whose value is the input, followed by exactly k',
                        'model_result': (run_model(exe, tbl, [enc(small)])[0] if exe else None),
                        'how': f'echo "<case>" | PYTHONPATH={lib.REPO}:harness /venv/bin/python harness/impl/c18_impl.py {lib.REPO}'})
-    for i in pg_fail[:2]:
+    for fn in sorted({cases[i][0] for i in pg_fail}):
+        idxs = [i for i in pg_fail if cases[i][0] == fn]
+        i = min(idxs, key=lambda i: (len(cases[i][1]), len(cases[i][2])))
         real_viol += 1
         c = cases[i]
         rep.violation(f'{FN_NAMES[c[0]]}: the PostgreSQL lexical spec does not read the real output back as one '
-                      f'literal/identifier with the original value ({len(pg_fail)} cases)',
+                      f'literal/identifier with the original value ({len(idxs)} cases)',
                       {**show(c), 'real_output': bytes.fromhex(impl[i].split('\t')[0]).decode(),
-                       'pg_spec_result': model[i].split('\t')[2] if model else None,
-                       'expected_one_of': pg_expect(c, None)})
+                       'pg_spec_result': pg_seen.get(i), 'expected_one_of': pg_expect(c, None)})
     broken = []
     if tr_err:
         broken.append(('translator failed closed: ' + tr_err, {'broken': 'harness/translate/c18_quote.py', 'error': tr_err}))
